@@ -676,6 +676,57 @@ class Grammar(object):
             return outs
         return None
 
+    def is_token_expr(self, t, _depth=0):
+        """Is t built from literals, Words and sequencing/choice/Optional/Suppress/Combine only (no non-terminals)?"""
+        if _depth > 12:
+            return False
+        if t.kind in ('lit', 'clit', 'word'):
+            return True
+        if t.kind in ('and', 'first', 'opt', 'suppress', 'combine') and t.kids:
+            return all(self.is_token_expr(k, _depth + 1) for k in t.kids)
+        return False
+
+    def token_strings(self, t, maxlen=3, cap=2000):
+        """The strings of length <= maxlen a token expression can match (derivations, bounded).
+
+        Word(init, body) contributes every init-char followed by body-chars; used to compare the language of an operator
+        token with the fixed operator table."""
+        def lang(x):
+            k = x.kind
+            if k == 'lit':
+                return {x.text} if len(x.text) <= maxlen else set()
+            if k == 'clit':
+                outs = {''}
+                for ch in x.text:
+                    outs = {o + c for o in outs for c in {ch.lower(), ch.upper()}}
+                return {o for o in outs if len(o) <= maxlen}
+            if k == 'word':
+                out, cur = set(), set(x.init)
+                for _ in range(maxlen):
+                    out |= cur
+                    cur = {c + b for c in cur for b in x.body}
+                    if len(out) + len(cur) > cap:
+                        raise AnalysisError('token language of `%s` too large to enumerate' % x.describe(1))
+                return {o for o in out if len(o) <= maxlen}
+            if k in ('suppress', 'combine'):
+                return lang(x.kids[0])
+            if k == 'opt':
+                return lang(x.kids[0]) | {''}
+            if k == 'first':
+                out = set()
+                for kid in x.kids:
+                    out |= lang(kid)
+                return out
+            if k == 'and':
+                outs = {''}
+                for kid in x.kids:
+                    outs = {a + b for a in outs for b in lang(kid) if len(a + b) <= maxlen}
+                    if len(outs) > cap:
+                        raise AnalysisError('token language of `%s` too large to enumerate' % x.describe(1))
+                return outs
+            raise AnalysisError('`%s` is not a token expression' % x.describe(1))
+        return lang(t)
+
     def emitted(self, t):
         """Token strings an operator expression leaves in the result (after const actions and Suppress)."""
         const = [a for a in t.actions if a.kind == 'const']
@@ -739,8 +790,11 @@ class Grammar(object):
                 else:
                     toks = self.literal_tokens(op)
                     if toks is None:
-                        return None
-                    lv.infix_ops = {a + b for a in (lv.infix_ops or {''}) for b in toks}
+                        if not self.is_token_expr(op):
+                            return None
+                        lv.wide_ops.append(op)      # an operator token that is not a finite set of literals (e.g. a Word)
+                    else:
+                        lv.infix_ops = {a + b for a in (lv.infix_ops or {''}) for b in toks}
                 lv.op_terms.append(op)
         elif not prefix:
             return None
@@ -948,6 +1002,8 @@ class Level(object):
         self.infix_ops = set()
         self.infix_optional = set()
         self.op_terms = []
+        self.wide_ops = []          # operator token expressions whose language is not a finite literal set
+        self.wide_handled = False
         self.group = None
 
     @property
@@ -955,6 +1011,8 @@ class Level(object):
         return self.term.label or self.outer.label or (self.group.value if self.group else None) or '?'
 
     def signature(self):
+        if self.wide_ops and not self.wide_handled:
+            return ('wide', tuple(w.describe(2) for w in self.wide_ops))
         return (frozenset(self.prefix_ops), frozenset(self.infix_ops), frozenset(self.infix_optional))
 
     def describe(self):
@@ -963,6 +1021,8 @@ class Level(object):
             parts.append('prefix %s' % _ops(self.prefix_ops))
         if self.infix_ops:
             parts.append('infix %s' % _ops(self.infix_ops))
+        if self.wide_ops:
+            parts.append('infix token %s' % ', '.join(w.describe(2) for w in self.wide_ops))
         if self.infix_optional:
             parts.append('optional sign %s after the operator' % _ops(self.infix_optional))
         return ', '.join(parts) or 'no operators'
